@@ -39,12 +39,42 @@ func runC41(c *Ctx) {
 			cmpAtom = f.Fact[:i+1]
 		}
 	}
+	// the big-integer comparison may sit in a tiebreak helper over the two VRF outputs: its atom is then named in
+	// the helper's vocabulary and carried into the helper's evaluation unchanged
+	var helperCmp []string
+	okOperands := strings.Index(cmpAtom, "VRFOutput(p1)") >= 0 && strings.Index(cmpAtom, "VRFOutput(p1)") < strings.Index(cmpAtom, "VRFOutput(p2)")
 	if cmpAtom == "" {
+		for _, ci := range allCalls(cmpFn) {
+			h := samePkgHelper(cmpFn, ci.Common())
+			if h == nil {
+				continue
+			}
+			for _, cj := range allCalls(h) {
+				if calleeName(cj.Common()) != "math/big.(*Int).Cmp" || cj.Value() == nil {
+					continue
+				}
+				helperCmp = append(helperCmp, "@"+h.Name()+":"+desc(cj.Value()))
+				// Cmp(int(p_i), int(p_j)) with argument i = a.VRFOutput() and j = b.VRFOutput()
+				ta, tb := trace(cj.Common().Args[0]), trace(cj.Common().Args[1])
+				ai, bi := -1, -1
+				for i, a := range ci.Common().Args {
+					switch trace(a) {
+					case "VRFOutput(p1)":
+						ai = i
+					case "VRFOutput(p2)":
+						bi = i
+					}
+				}
+				okOperands = ai >= 0 && bi >= 0 && strings.Contains(ta, fmt.Sprintf("p%d", ai)) && strings.Contains(tb, fmt.Sprintf("p%d", bi))
+			}
+		}
+	}
+	if cmpAtom == "" && len(helperCmp) == 0 {
 		c.Undecided("%s: VRF comparison not found", key)
 		return
 	}
 	// the Cmp must be a(VRF) vs b(VRF) in that order
-	c.Check(strings.Index(cmpAtom, "VRFOutput(p1)") >= 0 && strings.Index(cmpAtom, "VRFOutput(p1)") < strings.Index(cmpAtom, "VRFOutput(p2)"), "compare-table", key+":vrf-operands", cmpFn.Pos(), "VRF outputs are compared as integers, a against b", "the VRF comparison is not int(a.VRF).Cmp(int(b.VRF))")
+	c.Check(okOperands, "compare-table", key+":vrf-operands", cmpFn.Pos(), "VRF outputs are compared as integers, a against b", "the VRF comparison is not int(a.VRF).Cmp(int(b.VRF))")
 	type cell struct{ bn, ea, eb, vc int }
 	table := map[cell]int{}
 	spec := func(x cell) int {
@@ -65,13 +95,20 @@ func runC41(c *Ctx) {
 		for _, ea := range []int{0, 1} {
 			for _, eb := range []int{0, 1} {
 				for _, vc := range []int{-1, 0, 1} {
-					val := map[string]int64{"p1": 1, "p2": 1, bnA: int64(1 + bn), bnB: 1, lenA: int64(1 - ea), lenB: int64(1 - eb), cmpAtom: int64(vc)}
-					reach := psReachVal(cmpFn, []*ssa.BasicBlock{cmpFn.Blocks[0]}, nil, val)
+					val := map[string]int64{"p1": 1, "p2": 1, bnA: int64(1 + bn), bnB: 1, lenA: int64(1 - ea), lenB: int64(1 - eb)}
+					if cmpAtom != "" {
+						val[cmpAtom] = int64(vc)
+					}
+					for _, a := range helperCmp {
+						val[a] = int64(vc)
+					}
 					var res []string
-					for _, b := range cmpFn.Blocks {
-						if r, ok := b.Instrs[len(b.Instrs)-1].(*ssa.Return); ok && reach[b] {
-							res = append(res, desc(r.Results[0]))
+					if rs, okc := constResults(cmpFn, 0, val, 0); okc {
+						for k := range rs {
+							res = append(res, fmt.Sprint(k))
 						}
+					} else {
+						res = []string{"non-constant"}
 					}
 					ck := fmt.Sprintf("%s:bn%+d:aEmpty=%d:bEmpty=%d:vrf%+d", key, bn, ea, eb, vc)
 					x := cell{bn, ea, eb, vc}
@@ -135,6 +172,13 @@ func runC41(c *Ctx) {
 	}{{0, 0, "0"}, {0, 1, "-1"}, {1, 0, "1"}} {
 		reach := psReachVal(cmpFn, []*ssa.BasicBlock{cmpFn.Blocks[0]}, nil, map[string]int64{"p1": v.a, "p2": v.b})
 		got := map[string]bool{}
+		if rs, okc := constResults(cmpFn, 0, map[string]int64{"p1": v.a, "p2": v.b}, 0); okc && len(rs) > 0 {
+			// constants returned directly or through a nil-resolution helper
+			for k := range rs {
+				got[fmt.Sprint(k)] = true
+			}
+			reach = map[*ssa.BasicBlock]bool{}
+		}
 		for _, b := range cmpFn.Blocks {
 			if r, ok := b.Instrs[len(b.Instrs)-1].(*ssa.Return); ok && reach[b] {
 				// only the first return on the nil path: returns reachable before any accessor call
@@ -192,6 +236,42 @@ func runC41(c *Ctx) {
 					return false
 				})
 				ok = !reach[b] && len(gtEdges) > 0
+			}
+		}
+		if !(ok && okFalse) {
+			// written as one expression: return tip > fork && tip−fork > k
+			for _, b := range fn.Blocks {
+				r, isR := b.Instrs[len(b.Instrs)-1].(*ssa.Return)
+				if !isR {
+					continue
+				}
+				ph, isPhi := r.Results[0].(*ssa.Phi)
+				if !isPhi || len(ph.Edges) != 2 {
+					continue
+				}
+				for i, e := range ph.Edges {
+					other := ph.Edges[1-i]
+					if desc(e) != "false" || trace(other) != "((p2 - BlockNumber<p1) > SecurityParam<p0)" {
+						continue
+					}
+					pred := ph.Block().Preds[i]
+					for s2 := 0; s2 < 2 && s2 < len(pred.Succs); s2++ {
+						rl := c.c39EdgeRel(pred, s2)
+						if rl == nil {
+							continue
+						}
+						l, op, rr := rl.lhs, rl.op, rl.rhs
+						if l == "BlockNumber<p1" {
+							l, rr, op = rr, l, swapOpStr(op)
+						}
+						// the false constant arrives on tip <= fork, the subtraction is evaluated on tip > fork
+						if l == "p2" && rr == "BlockNumber<p1" && op == "<=" && pred.Succs[s2] == ph.Block() {
+							if bo, isBo := other.(*ssa.BinOp); isBo && bo.Block() == pred.Succs[1-s2] {
+								ok, okFalse = true, true
+							}
+						}
+					}
+				}
 			}
 		}
 		c.Check(ok && okFalse, "deep-fork", ssaFuncKey(fn), fn.Pos(), "deep ⇔ tip > fork ∧ tip − fork > k", "IsDeepFork is not (tip > fork block) ∧ (tip − fork block > security parameter)")
@@ -290,6 +370,52 @@ func runC41(c *Ctx) {
 				m.arithmetic = true
 			}
 		}
+		// a metric handed to an exact three-way comparison helper: h(x,y) = 1 if x>y, −1 if y>x, else 0, no arithmetic
+		for _, g := range closureFuncs(fn, 1) {
+			for _, ci := range allCalls(g) {
+				h := samePkgHelper(g, ci.Common())
+				if h == nil || len(ci.Common().Args) != 2 || len(h.Params) != 2 {
+					continue
+				}
+				x, y := trace(ci.Common().Args[0]), trace(ci.Common().Args[1])
+				name := ""
+				for _, m := range []string{"BlocksInWindow(", "Density("} {
+					if strings.HasPrefix(x, m) && strings.HasPrefix(y, m) {
+						name = strings.TrimSuffix(m, "(")
+					}
+				}
+				if name == "" {
+					continue
+				}
+				if metrics[name] == nil {
+					metrics[name] = &metric{name: name}
+				}
+				m := metrics[name]
+				three := true
+				for _, tc := range []struct{ a, b, want int64 }{{2, 1, 1}, {1, 2, -1}, {1, 1, 0}, {0, 0, 0}} {
+					rs, okc := constResults(h, 0, map[string]int64{"p0": tc.a, "p1": tc.b}, 0)
+					if !okc || len(rs) != 1 || !rs[tc.want] {
+						three = false
+					}
+				}
+				arith := false
+				for _, in := range fnInstrs(h) {
+					if bo, isBo := in.(*ssa.BinOp); isBo {
+						switch bo.Op {
+						case token.ADD, token.SUB, token.MUL, token.QUO:
+							arith = true
+						}
+					}
+				}
+				// the helper's result must be what is returned, and the operands the first candidate's then the second's
+				operands := strings.Contains(x, "p1") && strings.Contains(y, "p2") && !strings.Contains(x, " - ") && !strings.Contains(y, " - ")
+				if three && !arith && operands {
+					m.gt, m.lt = true, true
+				} else {
+					m.arithmetic = true
+				}
+			}
+		}
 		c.Check(len(metrics) >= 1, "density-exact-comparison", fk+":metrics", fn.Pos(), "a density metric is compared", "compareDensity compares no density metric")
 		for _, name := range sortedKeys(metrics) {
 			m := metrics[name]
@@ -321,6 +447,28 @@ func runC41(c *Ctx) {
 			a0, a1 := call.Call.Args[0], call.Call.Args[1]
 			ph, isPhi := a1.(*ssa.Phi)
 			okArgs := strings.HasPrefix(trace(a0), "p1[]") && isPhi
+			rangeTail := false
+			if !okArgs && isPhi && strings.HasPrefix(trace(a0), "p1[:][]") {
+				// for _, candidate := range candidates[1:]
+				var walk func(v ssa.Value, d int)
+				walk = func(v ssa.Value, d int) {
+					if d > 6 || v == nil {
+						return
+					}
+					switch x := v.(type) {
+					case *ssa.UnOp:
+						walk(x.X, d+1)
+					case *ssa.IndexAddr:
+						walk(x.X, d+1)
+					case *ssa.Slice:
+						if trace(x.X) == "p1" && x.Low != nil && desc(x.Low) == "1" && x.High == nil {
+							rangeTail = true
+						}
+					}
+				}
+				walk(a0, 0)
+				okArgs = rangeTail
+			}
 			okInit, okRepl := false, false
 			if isPhi {
 				for _, e := range ph.Edges {
@@ -348,7 +496,7 @@ func runC41(c *Ctx) {
 			okLoop := false
 			if h := loopHeadOf(call.Block()); h != nil {
 				if iff, ok := h.Instrs[len(h.Instrs)-1].(*ssa.If); ok {
-					okLoop = strings.HasSuffix(trace(iff.Cond), "< len(p1))")
+					okLoop = strings.HasSuffix(trace(iff.Cond), "< len(p1))") || rangeTail && strings.HasSuffix(trace(iff.Cond), "< len(p1[:]))")
 				}
 			}
 			c.Check(okLoop, "select-maximal", fk+":all-candidates", call.Pos(), "every candidate is visited", "the loop does not visit every candidate")
